@@ -746,6 +746,30 @@ def rule_predicates(check):
                     names.add(vals.get(cs[0].split("::")[-1]))
                 names |= set(lits)
         ok = names == {"call", "apply"}
+    mt = [x for x in hir.walk(f.body) if x.get("k") == "Match"]
+    if not ok and len(mt) == 1 and all(isinstance(hir.lit_value(r_), bool) for r_ in rets):
+        rets = [mt[0]]
+    if not ok and len(rets) == 1 and rets[0].get("k") == "Match":
+        # matches!(name, CALL | APPLY): an arm of constant patterns yielding true, everything else false
+        names, shape = set(), True
+        for arm in rets[0]["arms"]:
+            val = hir.lit_value(arm["body"])
+            pats = arm["pat"]["pats"] if arm["pat"].get("k") == "Or" else [arm["pat"]]
+            if val is True and "guard" not in arm:
+                for q in pats:
+                    d = (q.get("res") or {}).get("path") or q.get("path") or hir.pat_variant(q)
+                    v = hir.lit_value(q.get("e") or {}) if q.get("k") in ("Lit", "Expr") else None
+                    if isinstance(d, str) and d.split("::")[-1] in vals:
+                        names.add(vals[d.split("::")[-1]])
+                    elif v is not None:
+                        names.add(v)
+                    else:
+                        shape = False
+            elif val is False and all(q.get("k") == "Wild" for q in pats):
+                pass
+            else:
+                shape = False
+        ok = shape and names == {"call", "apply"}
     check.expect(ok, R, R + "/is_call_or_apply", hir.loc(f.rec), "is_call_or_apply <=> name in {call, apply}", "is_call_or_apply is not `name == \"call\" || name == \"apply\"`")
     g = prog.fn("FunctionPrototypeTransform::member_prop_is_prototype")
     rets = [hir.peel(r) for r in return_exprs(g.body)]
